@@ -36,7 +36,7 @@ func VerifH_C16_fresh() {
 	commits := symParam("commits", 2)
 	vUFLayer(uint8(symParam("maxlayer", 2)))
 	bkt := vNewBucket()
-	w := vMustOpen(bkt.client(1), vTableOpts{bf: 2}, 10)
+	w := vMustOpen(bkt.client(1), vTableOpts{bf: 2, cache: symParam("cache", 0)}, 10)
 	keys := vDistinctKeys(n)
 	per := (n + commits - 1) / commits
 	for i := 0; i < n; i++ {
@@ -48,7 +48,8 @@ func VerifH_C16_fresh() {
 			vDbg("writer-scan", err)
 			symAssert(err == nil, "writer-scan-ok")
 			symAssert(len(wrows) == i+1, "writer-sees-all-rows")
-			r, err := vOpen(bkt.fork().client(2), vTableOpts{bf: 2, readOnly: true, cache: symParam("cache", 0)}, 50)
+			// a fresh process: no cache of its own
+			r, err := vOpen(bkt.fork().client(2), vTableOpts{bf: 2, readOnly: true}, 50)
 			symAssert(err == nil, "fresh-open-ok")
 			rrows, err := vScan(r)
 			symAssert(err == nil, "fresh-scan-ok")
